@@ -590,8 +590,16 @@ def absence_by_none(fn_node: ast.AST, containers: tuple[str, ...] = ()) -> list[
     d = Defs(fn_node)
     out: list[tuple[ast.AST, str]] = []
 
-    def is_get(e: ast.AST) -> str | None:
+    def is_get(e: ast.AST, depth: int = 1) -> str | None:
         e = e.value if isinstance(e, ast.NamedExpr) else e
+        if isinstance(e, ast.Name) and d.unique(e.id) is None and depth:
+            # several definitions (one per branch): it is enough that one of them is such a lookup
+            for st in ast.walk(fn_node):
+                if isinstance(st, ast.Assign) and any(isinstance(t, ast.Name) and t.id == e.id for t in st.targets) and not isinstance(st.value, ast.Name):
+                    r = is_get(st.value, 0)
+                    if r:
+                        return r
+            return None
         e = d.resolve(e) if isinstance(e, ast.Name) else e
         e = e.value if isinstance(e, ast.NamedExpr) else e
         if isinstance(e, ast.Call) and isinstance(e.func, ast.Attribute) and e.func.attr == "get" and 1 <= len(e.args) <= 2 and not e.keywords:
